@@ -219,7 +219,10 @@ func (wrapper *OldContainerDetectorWrapper) OnColumn(ctx context.Context, inBuff
 		return ctx, inBuffer, err
 	}
 
-	outBuffer, err = acrablock.ProcessAcraBlocks(ctx, outBuffer, outBuffer, wrapper)
+	// the result of the first pass is read-only input of the second one: a separate output buffer,
+	// because a callback may return MORE bytes than the envelope it replaces (a masking pattern longer
+	// than the AcraBlock), and with aliased buffers that would overwrite input that was not read yet
+	outBuffer, err = acrablock.ProcessAcraBlocks(ctx, outBuffer, make([]byte, len(outBuffer)), wrapper)
 	if err != nil {
 		return ctx, inBuffer, err
 	}
